@@ -4,8 +4,9 @@ import json
 
 FLAGS = "-^~"
 NAMES = ["a", "b", "c", "ab", "ba", "s1", "t1", "foo", "bar", "x_y", "abc", "t2"]
-DESCS = ["A test", "desc", "desc2", "Some *thing*", "x", "checks [1]", "a?b", "slow one", "", "My desc"]
-TAGS = ["slow", "fast", "t1", "tag", "a*", "^neg", "", "x", "smoke", "-dash"]
+DESCS = ["A test", "desc", "desc2", "Some *thing*", "x", "checks [1]", "a?b", "slow one", "", "My desc", "line1\nline2",
+         "\u00c9t\u00e9 \u65e5\u672c", "a\U0001F600b"]
+TAGS = ["slow", "fast", "t1", "tag", "a*", "^neg", "", "x", "smoke", "-dash", "Slow", "\u00e9t\u00e9"]
 PKEYS = ["prio", "k", "type", "p*", ""]
 PVALS = ["low", "high", "1", "", "lo*", "^low", "medium"]
 LINKS = [["http://bug/1", "#1"], ["http://bug/2", None], ["u", ""], ["#2", "name"], ["http://bug/12", "#12"], ["x", None]]
